@@ -91,7 +91,8 @@ impl SlidingLogState {
             limit_for_period,
             window_duration,
             timeout_duration,
-            request_log: VecDeque::with_capacity(limit_for_period),
+            // limit_for_period is a bound, not a size hint: the log grows on demand
+            request_log: VecDeque::new(),
         }
     }
 
